@@ -200,7 +200,11 @@ func lebPatterns() [][]byte {
 
 // text payloads ---------------------------------------------------------------
 
-var textRunes = []rune{'a', 'é', '€', 0x1F600, 0}
+// U+FEFF is in the alphabet as a character like any other: it makes the byte order
+// mark appear first, doubled, in the middle and last in every encoding/termination
+// form (first: a signature that the byte order mark aware encodings remove once;
+// anywhere else, and in the encodings with a fixed byte order: part of the value).
+var textRunes = []rune{'a', 'é', '€', 0x1F600, 0, 0xFEFF}
 
 func textStrings(maxRunes int) []string {
 	out := []string{""}
@@ -246,11 +250,13 @@ func textForms(s string) []textPayload {
 		}
 		return o
 	}
-	bomLE, bomBE := []byte{0xff, 0xfe}, []byte{0xfe, 0xff}
+	bomLE, bomBE, bom8 := []byte{0xff, 0xfe}, []byte{0xfe, 0xff}, []byte{0xef, 0xbb, 0xbf}
 	ps := []textPayload{
 		{"utf8", u8},
 		{"utf8+nul", cat(u8, []byte{0})},
 		{"utf8+nul-padding", cat(u8, []byte{0, 0, 0})},
+		{"bom+utf8", cat(bom8, u8)},
+		{"bom+utf8+nul", cat(bom8, u8, []byte{0})},
 		{"utf16le", le},
 		{"utf16be", be},
 		{"bom+utf16le", cat(bomLE, le)},
@@ -264,6 +270,7 @@ func textForms(s string) []textPayload {
 		ps = append(ps,
 			textPayload{"len+utf8", cat([]byte{byte(len(u8))}, u8)},
 			textPayload{"len+utf8+padding", cat([]byte{byte(len(u8))}, u8, []byte{0, 0xaa, 0x55})},
+			textPayload{"len+bom+utf8", cat([]byte{byte(3 + len(u8))}, bom8, u8)},
 		)
 	}
 	return ps
